@@ -4,6 +4,7 @@ spec -> TLC:   spec/Lexer.tla: all texts over 22 character classes up to a lengt
 spec -> impl:  every class text concretised (several characters per class, 1-4 byte UTF-8) and lexed by Lex::next:
                kinds, spans, decoded strings, bit-string bits, integer values (sign/radix/digits), reals vs str::parse.
                Print/read: values enumerated by TLC with their predicted literal text (MC_C16P).
+               Numerals around 2^63, 2^64, 2^127, 2^128 in every notation with the acceptance rule of MC_C16R.
 impl -> spec:  seeded arbitrary UTF-8 incl. dictionary words and literals around the i128 limits, spans validated by TLC
                (Trace_Lexer: termination, progress, tiling)."""
 import json, os
@@ -44,6 +45,16 @@ def run(tier, seed):
     for m in read_ndjson(mm):
         rep.violation("print:" + json.dumps(m["value"]), f"value {json.dumps(m['value'])[:200]}: {m['why'][0]}", m)
     os.remove(outf)
+    # numerals at the edge of the 128-bit range, in every radix notation / sign spelling / with separators
+    outf = os.path.join(wd, "MC_C16R.out")
+    res = run_tlc("mc/MC_C16R", "SPECIFICATION Spec\nINVARIANT Export\nCHECK_DEADLOCK FALSE\n", wd, name="MC_C16R", timeout=600, to_file=outf)
+    tlc_must_pass(res, "MC_C16R")
+    states += res["distinct"]; trans += res["generated"]
+    mm = os.path.join(wd, "range.mm.ndjson")
+    sr = xv_json(["lexrange-replay", outf, mm])
+    for m in read_ndjson(mm):
+        rep.violation("numeral:" + m["text"], f"numeral {m['text']}: {m['why'][0]}", m)
+    os.remove(outf)
     t = os.path.join(wd, "fuzz.trace.ndjson")
     sf = xv_json(["lex-fuzz", t, str(seed), str(FUZZ[tier])])
 
@@ -52,7 +63,8 @@ def run(tier, seed):
     tstates, rej = vlib.validate_runs("Trace_Lexer", t, wd, on_reject, name="Trace_Lexer")
     rep.sample({"classes": ["d0", "x", "hx", "sp", "dq", "al", "dq"], "concretised": "0xf \"q\"", "predicted": "int 15, ws, str"})
     rep.sample(json.loads(open(t).readline()))
-    rep.add(states=states, transitions=trans, traces_validated_against_impl=conc + sp["values"] + sf["texts"], evaluations=conc + sp["values"] + sf["texts"],
+    rep.add(states=states, transitions=trans, traces_validated_against_impl=conc + sp["values"] + sf["texts"] + sr["numerals"], evaluations=conc + sp["values"] + sf["texts"] + sr["numerals"],
+            numerals_at_the_range_edge=sr["numerals"], numerals_accepted=sr["accepted"],
             distinct_nontrivial=texts, exhaustive=True, trace_states=tstates,
             rule=f"TLC: all class texts with (alphabet, max length, concretisations) {CONF[tier]}; print/read: all bit-strings up to 9/12 bits, an integer family, vectors and maps "
                  f"of those to depth 2 ({sp['values']} values); {FUZZ[tier]} seeded UTF-8 texts validated by TLC")
